@@ -48,10 +48,11 @@ def _preserve_dtypes(df, dtypes):
 def empty_defaults_per_dtype(dtype):
     if is_numeric_dtype(dtype):
         return np.nan
+    elif is_object_dtype(dtype):
+        # an (empty) object column counts as string dtype, too: None like the single create functions
+        return None
     elif is_string_dtype(dtype):
         return ""
-    elif is_object_dtype(dtype):
-        return None
     else:
         raise NotImplementedError(f"{dtype=} is not implemented in _empty_defaults()")
 
